@@ -238,6 +238,11 @@ func (ms MatrixSetup) MarshalYAML() (any, error) {
 	if len(ms) == 1 && len(ms[""]) > 0 {
 		return ms[""], nil
 	}
+	if ms == nil {
+		// A matrix written without a setup still marshals an empty setup
+		// mapping, not null (which UnmarshalOrdered does not accept).
+		return map[string][]string{}, nil
+	}
 	return map[string][]string(ms), nil
 }
 
@@ -335,6 +340,11 @@ func (maw MatrixAdjustmentWith) MarshalJSON() ([]byte, error) {
 func (maw MatrixAdjustmentWith) MarshalYAML() (any, error) {
 	if _, has := maw[""]; has && len(maw) == 1 {
 		return maw[""], nil
+	}
+	if maw == nil {
+		// An adjustment written without "with" still marshals an empty
+		// mapping, not null (which UnmarshalOrdered does not accept).
+		return map[string]string{}, nil
 	}
 	return map[string]string(maw), nil
 }
